@@ -769,7 +769,7 @@ Section MonRel.
     - rewrite (tf_flushok _ _ A5). assumption.
     - intro Ht. destruct (mr_clean0 Ht) as (B1 & B2 & B3 & B4 & B5 & B6 & B7).
       destruct (TF_clean _ _ A5 (conj B1 (conj B2 (conj B3 (conj B4 (conj B5 B6)))))) as (D1 & D2 & D3 & D4 & D5 & D6).
-      repeat (split; [assumption|]). lia.
+      repeat (split; [assumption|]). alia.
   Qed.
 
   (* the three clauses checked after a settle *)
@@ -808,11 +808,275 @@ Section MonRel.
       { eapply (quiescent_state s I Q); try eassumption.
         - rewrite (mr_qcap _ _ R). exact Hq.
         - rewrite (mr_maxif _ _ R). exact Hm. }
-      apply N.leb_le. destruct (inflight s); [congruence|cbn [length]; lia].
+      apply N.leb_le. destruct (inflight s); [congruence|cbn [length]; alia].
     - (* (d) *)
       destruct (wm_ended m) eqn:He; [reflexivity|]. destruct (wm_tainted m) eqn:Ht; [reflexivity|].
       cbn [orb]. destruct (mr_alive _ _ R He) as [Hf Hdr].
       destruct (mr_clean _ _ R Ht) as (_ & _ & _ & _ & _ & _ & B7).
-      rewrite (inbox_state s Q Hf Hdr) in B7. cbn [length] in B7. apply Nat.eqb_eq. lia.
+      rewrite (inbox_state s Q Hf Hdr) in B7. cbn [length] in B7. apply Nat.eqb_eq. alia.
   Qed.
 End MonRel.
+
+(* ================================================================== explicit ops *)
+Lemma set_nth_noop {A} (h : nat) (x : A) (l : list A) :
+  nth_error l h = None \/ nth_error l h = Some x -> set_nth h x l = l.
+Proof.
+  revert h; induction l as [|y r IH]; intros [|h]; cbn; try reflexivity.
+  - intros [H|H]; [discriminate|injection H as ->; reflexivity].
+  - intro H. rewrite (IH h H). reflexivity.
+Qed.
+
+Definition op_mon (m : wmon) (o : sop) (l : list obs) : wmon :=
+  let m1 := wm_op m o in
+  match o, l with
+  | SPollCall i, [OCall (CDone _)] =>
+    {| wm_calls := wm_calls m1; wm_live := wm_live m1; wm_done := i :: wm_done m1; wm_dropped := wm_dropped m1; wm_handles := wm_handles m1; wm_dead := wm_dead m1; wm_ended := wm_ended m1; wm_ready := wm_ready m1; wm_flush := wm_flush m1; wm_tainted := wm_tainted m1; wm_delivered := wm_delivered m1; wm_read := wm_read m1 |}
+  | SPollD, [OCalls cl; ODisp r; _] =>
+    {| wm_calls := wm_calls m1; wm_live := wm_live m1; wm_done := wm_done m1; wm_dropped := wm_dropped m1; wm_handles := wm_handles m1; wm_dead := match r with DReady (DErr _) => true | _ => wm_dead m1 end; wm_ended := match r with DReady _ => true | _ => wm_ended m1 end; wm_ready := wm_ready m1; wm_flush := wm_flush m1; wm_tainted := wm_tainted m1; wm_delivered := wm_delivered m1; wm_read := wm_read m1 + length (reads_of cl) |}
+  | _, _ => m1
+  end.
+
+Definition no_panic (l : list obs) : bool :=
+  negb (existsb (fun x => match x with OPanic | OSpin => true | _ => false end) l).
+
+Section OpRel.
+  Implicit Types (s : sstate) (m : wmon).
+  Variable c : ccfg.
+
+  Lemma nl_calls_eq s s' j : calls s' = calls s -> nl s' j -> nl s j.
+  Proof. unfold nl. intros ->. auto. Qed.
+
+  Lemma MR_op m s o s1 l :
+    MR c m s -> NW s -> step stp sfuel s (to_op o) = (s1, l) ->
+    no_panic l = true /\ MR c (op_mon m o l) s1.
+  Proof.
+    intros R Hnw H. pose proof (mr_inv _ _ _ R) as I.
+    pose proof (Inv_step stp sfuel s (to_op o) I Hnw) as I1. rewrite H in I1. cbn [fst] in I1.
+    pose proof (CF_step stp sfuel s (to_op o)) as [C1 C2]. rewrite H in C1, C2. cbn [fst] in C1, C2.
+    destruct o; cbn [to_op step] in H.
+    - (* SClone *)
+      injection H as <- <-. split; [reflexivity|]. unfold op_mon. cbn [wm_op].
+      rewrite (mr_handles _ _ _ R).
+      destruct (nth_error (handles s) h) as [[|]|] eqn:Eh; try exact R.
+      eapply (MR_upd c m s); try exact R; try exact I1; try reflexivity; try apply R.
+    - (* SDropH *)
+      injection H as <- <-. split; [reflexivity|]. unfold op_mon. cbn [wm_op].
+      destruct (nth_error (handles s) h) as [[|]|] eqn:Eh.
+      + eapply (MR_upd c m s); try exact R; try exact I1; try reflexivity; try apply R.
+        cbn. rewrite (mr_handles _ _ _ R). reflexivity.
+      + eapply (MR_upd c m s); try exact R; try exact I1; try reflexivity; try apply R.
+        cbn. rewrite (mr_handles _ _ _ R). apply set_nth_noop. right. exact Eh.
+      + eapply (MR_upd c m s); try exact R; try exact I1; try reflexivity; try apply R.
+        cbn. rewrite (mr_handles _ _ _ R). apply set_nth_noop. left. exact Eh.
+    - (* SCall *)
+      injection H as <- <-. split; [reflexivity|]. unfold op_mon. cbn [wm_op].
+      rewrite (mr_handles _ _ _ R).
+      set (alive := match nth_error (handles s) h with Some true => true | _ => false end).
+      eapply (MR_upd c m s); try exact R; try exact I1; try reflexivity;
+        cbn [wm_handles wm_calls wm_live wm_done wm_dropped wm_ended wm_dead calls upd_calls handles
+             finished dropped]; try apply R.
+      + rewrite app_length, (mr_calls _ _ _ R). cbn. lia.
+      + rewrite app_length, (mr_live _ _ _ R). cbn. lia.
+      + intros j (k & Ek & Hl). cbn [calls upd_calls] in Ek.
+        pose proof (mr_live _ _ _ R) as Ll. pose proof (mr_calls _ _ _ R) as Lc.
+        destruct (Nat.lt_ge_cases j (length (calls s))) as [Hlt|Hge].
+        * rewrite nth_error_app1 in Ek by exact Hlt. rewrite app_nth1 by lia.
+          apply (mr_acc _ _ _ R). exists k. auto.
+        * assert (j = length (calls s)).
+          { assert (nth_error (calls s ++ [
+              {| c_handle := h; c_phase := match nth_error (handles s) h with Some true => PNew | _ => PGone end;
+                 c_id := 0; c_rel := d; c_deadline := (now s + d)%N;
+                 c_tc := {| tc_tid := tid; tc_sid := 0; tc_sampled := sampled |}; c_body := body |}]) j <> None)
+              by congruence.
+            apply nth_error_Some in H. rewrite app_length in H. cbn in H. lia. }
+          subst j. left. rewrite app_nth2 by lia. rewrite Ll, Lc, Nat.sub_diag. cbn [nth].
+          rewrite nth_error_app2 in Ek by lia. rewrite Nat.sub_diag in Ek. cbn in Ek.
+          injection Ek as <-. cbn [c_phase] in Hl. unfold alive.
+          destruct (nth_error (handles s) h) as [[|]|]; try reflexivity. discriminate.
+    - (* SPollCall *)
+      pose proof (tr_poll_call s i) as Et. pose proof (UFrame_poll_call s i) as U.
+      destruct (poll_call s i) as [r s1'] eqn:Ep. cbn [snd] in Et, U. injection H as <- <-.
+      destruct (poll_call_eff _ _ _ _ Ep) as [Ch1 _].
+      split; [destruct r; reflexivity|].
+      assert (Hnl : forall j, nl s1' j -> nl s j \/ (j = i /\ exists o, r = CDone o))
+        by (apply (nl_poll_call _ _ _ _ Ep)).
+      destruct r as [|o|]; unfold op_mon; cbn [wm_op].
+      + eapply (MR_upd c m s); try exact R; try exact I1; try reflexivity; try assumption; try apply R.
+        * rewrite (mr_handles _ _ _ R). symmetry. apply Ch1.
+        * rewrite (mr_calls _ _ _ R). symmetry. apply Ch1.
+        * intros j Hj. destruct (Hnl j Hj) as [X|[_ [o X]]]; [apply (mr_acc _ _ _ R), X|discriminate].
+        * intro He. rewrite (uf_finished _ _ U), (uf_dropped _ _ U). apply (mr_alive _ _ _ R He).
+        * intro Hd. unfold mdead. rewrite (uf_finished _ _ U), (uf_dropped _ _ U). apply (mr_dead _ _ _ R Hd).
+      + eapply (MR_upd c m s); try exact R; try exact I1; try reflexivity; try assumption;
+          cbn [wm_handles wm_calls wm_live wm_done wm_dropped wm_ended wm_dead]; try apply R.
+        * rewrite (mr_handles _ _ _ R). symmetry. apply Ch1.
+        * rewrite (mr_calls _ _ _ R). symmetry. apply Ch1.
+        * intros j Hj. rewrite memn_cons. destruct (Hnl j Hj) as [X|[-> _]].
+          -- destruct (mr_acc _ _ _ R j X) as [Y|[Y|Y]]; auto. right; left. rewrite Y. apply orb_true_r.
+          -- right; left. rewrite Nat.eqb_refl. reflexivity.
+        * intro He. rewrite (uf_finished _ _ U), (uf_dropped _ _ U). apply (mr_alive _ _ _ R He).
+        * intro Hd. unfold mdead. rewrite (uf_finished _ _ U), (uf_dropped _ _ U). apply (mr_dead _ _ _ R Hd).
+      + eapply (MR_upd c m s); try exact R; try exact I1; try reflexivity; try assumption; try apply R.
+        * rewrite (mr_handles _ _ _ R). symmetry. apply Ch1.
+        * rewrite (mr_calls _ _ _ R). symmetry. apply Ch1.
+        * intros j Hj. destruct (Hnl j Hj) as [X|[_ [o X]]]; [apply (mr_acc _ _ _ R), X|discriminate].
+        * intro He. rewrite (uf_finished _ _ U), (uf_dropped _ _ U). apply (mr_alive _ _ _ R He).
+        * intro Hd. unfold mdead. rewrite (uf_finished _ _ U), (uf_dropped _ _ U). apply (mr_dead _ _ _ R Hd).
+    - (* SDropCall *)
+      injection H as <- <-. split; [reflexivity|]. unfold op_mon. cbn [wm_op].
+      set (s1 := match option_map c_phase (nth_error (calls s) i) with
+                 | Some PClosing => s | _ => guard_cancel (guard_close s i) i end) in *.
+      destruct (guard_close_eff s i (winv_of_Inv s I)) as [Cg _].
+      destruct (guard_cancel_eff (guard_close s i) i) as [Cc _].
+      pose proof (Ch_trans _ _ _ _ Cg Cc) as Ch2.
+      assert (Ch1 : Ch i s s1) by (unfold s1; destruct (option_map _ _) as [[]|]; try exact Ch2; apply Ch_refl).
+      assert (Et : tr s1 = tr s).
+      { unfold s1; destruct (option_map _ _) as [[]|]; try reflexivity;
+          rewrite tr_guard_cancel, tr_guard_close; reflexivity. }
+      assert (U : UFrame s s1).
+      { unfold s1; destruct (option_map _ _) as [[]|]; try apply UFrame_refl;
+          (eapply UFrame_trans; [apply UFrame_guard_close|apply UFrame_guard_cancel]). }
+      eapply (MR_upd c m s); try exact R; try exact I1; try reflexivity; try assumption;
+        cbn [wm_handles wm_calls wm_live wm_done wm_dropped wm_ended wm_dead]; try apply R.
+      + rewrite (mr_handles _ _ _ R). symmetry. apply Ch1.
+      + rewrite (mr_calls _ _ _ R). symmetry. apply Ch1.
+      + intros j Hj. rewrite memn_cons. destruct (Nat.eq_dec j i) as [->|Hne].
+        * right; right. rewrite Nat.eqb_refl. reflexivity.
+        * destruct (mr_acc _ _ _ R j (Ch_nl _ _ _ _ Ch1 Hne Hj)) as [Y|[Y|Y]]; auto.
+          right; right. rewrite Y. apply orb_true_r.
+      + intro He. rewrite (uf_finished _ _ U), (uf_dropped _ _ U). apply (mr_alive _ _ _ R He).
+      + intro Hd. unfold mdead. rewrite (uf_finished _ _ U), (uf_dropped _ _ U). apply (mr_dead _ _ _ R Hd).
+    - (* SGClose *)
+      injection H as <- <-. split; [reflexivity|]. unfold op_mon. cbn [wm_op].
+      set (s1 := match option_map c_phase (nth_error (calls s) i) with
+                 | Some PClosing => s | _ => guard_close s i end) in *.
+      destruct (guard_close_eff s i (winv_of_Inv s I)) as [Cg _].
+      assert (Ch1 : Ch i s s1) by (unfold s1; destruct (option_map _ _) as [[]|]; try exact Cg; apply Ch_refl).
+      assert (Et : tr s1 = tr s).
+      { unfold s1; destruct (option_map _ _) as [[]|]; try reflexivity; apply tr_guard_close. }
+      assert (U : UFrame s s1).
+      { unfold s1; destruct (option_map _ _) as [[]|]; try apply UFrame_refl; apply UFrame_guard_close. }
+      eapply (MR_upd c m s); try exact R; try exact I1; try reflexivity; try assumption;
+        cbn [wm_handles wm_calls wm_live wm_done wm_dropped wm_ended wm_dead]; try apply R.
+      + rewrite (mr_handles _ _ _ R). symmetry. apply Ch1.
+      + rewrite (mr_calls _ _ _ R). symmetry. apply Ch1.
+      + intros j Hj. rewrite memn_cons. destruct (Nat.eq_dec j i) as [->|Hne].
+        * right; right. rewrite Nat.eqb_refl. reflexivity.
+        * destruct (mr_acc _ _ _ R j (Ch_nl _ _ _ _ Ch1 Hne Hj)) as [Y|[Y|Y]]; auto.
+          right; right. rewrite Y. apply orb_true_r.
+      + intro He. rewrite (uf_finished _ _ U), (uf_dropped _ _ U). apply (mr_alive _ _ _ R He).
+      + intro Hd. unfold mdead. rewrite (uf_finished _ _ U), (uf_dropped _ _ U). apply (mr_dead _ _ _ R Hd).
+    - (* SGCancel *)
+      injection H as <- <-. split; [reflexivity|]. unfold op_mon. cbn [wm_op].
+      destruct (guard_cancel_eff s i) as [Cc _]. pose proof (UFrame_guard_cancel s i) as U.
+      eapply (MR_upd c m s); try exact R; try exact I1; try reflexivity; try assumption; try apply R.
+      + apply tr_guard_cancel.
+      + rewrite (mr_handles _ _ _ R). symmetry. apply Cc.
+      + rewrite (mr_calls _ _ _ R). symmetry. apply Cc.
+      + intros j Hj. apply (mr_acc _ _ _ R), (nl_guard_cancel s i j Hj).
+      + intro He. rewrite (uf_finished _ _ U), (uf_dropped _ _ U). apply (mr_alive _ _ _ R He).
+      + intro Hd. unfold mdead. rewrite (uf_finished _ _ U), (uf_dropped _ _ U). apply (mr_dead _ _ _ R Hd).
+    - (* SPollD *)
+      destruct (finished s) eqn:Ef.
+      { injection H as <- <-. split; [reflexivity|exact R]. }
+      destruct (dropped s) eqn:Ed.
+      { injection H as <- <-. split; [reflexivity|exact R]. }
+      set (s0 := upd_tr s (tr s) (fused s) []) in *.
+      destruct (poll_dispatch stp (sfuel s0) s0) as [r s'] eqn:Ep.
+      pose proof (DR_poll_dispatch _ _ _ _ Ep) as D. destruct (fd_poll_dispatch _ _ _ _ Ep) as [F1 F2].
+      set (s2 := match r with DReady d => upd_fin s' (Some d) (dropped s') | _ => s' end) in *.
+      injection H as <- <-. unfold gauges. cbn [app]. split; [reflexivity|].
+      unfold op_mon. cbn [wm_op].
+      assert (Ec : calls s2 = calls s') by (unfold s2; destruct r; reflexivity).
+      assert (Et : tr s2 = tr s') by (unfold s2; destruct r; reflexivity).
+      assert (Eh : handles s2 = handles s') by (unfold s2; destruct r; reflexivity).
+      destruct R.
+      constructor; cbn [wm_handles wm_calls wm_live wm_done wm_dropped wm_ended wm_dead wm_ready
+                        wm_flush wm_tainted wm_delivered wm_read tr calls handles finished dropped
+                        q_cap max_if upd_tr].
+      + exact I1.
+      + cbn [q_cap upd_tr] in C1. congruence.
+      + cbn [max_if upd_tr] in C2. congruence.
+      + rewrite Et, (tf_cap _ _ (dr_tf _ _ D)). assumption.
+      + rewrite Et, (tf_coupled _ _ (dr_tf _ _ D)). assumption.
+      + rewrite Eh, (dr_handles _ _ D). assumption.
+      + rewrite Ec, (dr_len _ _ D). assumption.
+      + assumption.
+      + intros j Hj. apply mr_acc0. apply (DR_nl s0 s' j D). unfold nl in *.
+        cbn [calls upd_tr] in Hj. rewrite Ec in Hj. exact Hj.
+      + intro He. unfold s2. destruct r as [d| |]; [discriminate| |];
+          cbn [finished dropped]; rewrite F1, F2; auto.
+      + intro Hd. unfold s2, mdead. destruct r as [[|a]| |]; cbn [finished dropped upd_fin].
+        * exfalso. destruct (mr_dead0 Hd) as [[a Ha]|Ha]; [rewrite Ef in Ha|rewrite Ed in Ha]; discriminate.
+        * left. exists a. reflexivity.
+        * exfalso. destruct (mr_dead0 Hd) as [[a Ha]|Ha]; [rewrite Ef in Ha|rewrite Ed in Ha]; discriminate.
+        * exfalso. destruct (mr_dead0 Hd) as [[a Ha]|Ha]; [rewrite Ef in Ha|rewrite Ed in Ha]; discriminate.
+      + rewrite Et, (tf_ready _ _ (dr_tf _ _ D)). assumption.
+      + rewrite Et, (tf_flushok _ _ (dr_tf _ _ D)). assumption.
+      + intro Ht. destruct (mr_clean0 Ht) as (B1 & B2 & B3 & B4 & B5 & B6 & B7). rewrite Et.
+        destruct (TF_clean _ _ (dr_tf _ _ D) (conj B1 (conj B2 (conj B3 (conj B4 (conj B5 B6))))))
+          as (D1 & D2 & D3 & D4 & D5 & D6).
+        repeat (split; [assumption|]).
+        pose proof (dr_cons _ _ D) as Cn. cbn [tr plog s0 upd_tr] in Cn. unfold reads_of in Cn at 1.
+        cbn in Cn. alia.
+    - (* SDropD *)
+      injection H as <- <-. split; [reflexivity|]. unfold op_mon. cbn [wm_op].
+      destruct (dropped s) eqn:Ed.
+      + eapply (MR_upd c m s); try exact R; try exact I1; try reflexivity; try apply R.
+        * discriminate.
+        * intros _. right. exact Ed.
+      + assert (Ec : DR s (drop_dispatch s)).
+        { unfold drop_dispatch.
+          set (s1 := q_close s). set (s2 := fold_left _ (queue s1) s1). set (s3 := fold_left _ (inflight s2) s2).
+          pose proof (TFrame_fold_slot_tx_drop q_id (queue s1) s1) as T2.
+          pose proof (TFrame_fold_slot_tx_drop (A := N * ifentry) fst (inflight s2) s2) as T3.
+          eapply DR_trans; [apply DR_q_close|]. eapply DR_trans; [apply DR_T, T2|].
+          eapply DR_trans; [apply DR_T, T3|]. apply DR_same; reflexivity. }
+        assert (Et : tr (drop_dispatch s) = tr s).
+        { unfold drop_dispatch. cbn [tr upd_fin upd_cancels upd_if upd_q].
+          rewrite (if_tr _ _ (tf_i _ _ (TFrame_fold_slot_tx_drop fst _ _))).
+          rewrite (if_tr _ _ (tf_i _ _ (TFrame_fold_slot_tx_drop q_id _ _))).
+          apply (if_tr _ _ (IFrame_q_close s)). }
+        eapply (MR_upd c m s); try exact R; try exact I1; try reflexivity; try assumption;
+          cbn [wm_handles wm_calls wm_live wm_done wm_dropped wm_ended wm_dead]; try apply R.
+        * rewrite (mr_handles _ _ _ R). symmetry. apply Ec.
+        * rewrite (mr_calls _ _ _ R). symmetry. apply Ec.
+        * intros j Hj. apply (mr_acc _ _ _ R), (DR_nl _ _ _ Ec Hj).
+        * discriminate.
+        * intros _. right. reflexivity.
+    - (* SAdv *)
+      injection H as <- <-. split; [reflexivity|]. unfold op_mon. cbn [wm_op].
+      eapply (MR_upd c m s); try exact R; try exact I1; try reflexivity; try apply R.
+    - (* STr *)
+      injection H as <- <-. split; [reflexivity|]. unfold op_mon.
+      destruct R.
+      assert (Base : forall m', wm_calls m' = wm_calls m -> wm_live m' = wm_live m ->
+                wm_done m' = wm_done m -> wm_dropped m' = wm_dropped m -> wm_handles m' = wm_handles m ->
+                wm_dead m' = wm_dead m -> wm_ended m' = wm_ended m ->
+                st_ready (s_control (tr s) o) = wm_ready m' ->
+                st_flushok (s_control (tr s) o) = wm_flush m' ->
+                (wm_tainted m' = false ->
+                 let t := s_control (tr s) o in
+                 st_fail_ready t = false /\ st_fail_send t = false /\ st_fail_flush t = false /\
+                 st_fail_close t = false /\ st_fail_next t = false /\ st_eof t = false /\
+                 wm_delivered m' = (wm_read m' + length (st_inbox t))%nat) ->
+                MR c m' (upd_tr s (s_control (tr s) o) (fused s) (plog s))).
+      { intros m' E1 E2 E3 E4 E5 E6 E7 Hr Hfl Hcl.
+        constructor; cbn [tr calls handles finished dropped q_cap max_if upd_tr];
+          rewrite ?E1, ?E2, ?E3, ?E4, ?E5, ?E6, ?E7; try assumption.
+        - destruct o; cbn [s_control]; try assumption; destruct (st_eof (tr s)); assumption.
+        - destruct o; cbn [s_control]; try assumption; destruct (st_eof (tr s)); assumption. }
+      destruct o as [x| |b|b|b|mm|k]; cbn [wm_op]; apply Base; try reflexivity;
+        cbn [wm_ready wm_flush wm_tainted wm_delivered wm_read s_control];
+        try assumption; try discriminate.
+      + (* TDeliver *) destruct (st_eof (tr s)); assumption.
+      + destruct (st_eof (tr s)); assumption.
+      + intro Ht. destruct (mr_clean0 Ht) as (B1 & B2 & B3 & B4 & B5 & B6 & B7).
+        rewrite B6. cbn [st_with st_fail_ready st_fail_send st_fail_flush st_fail_close st_fail_next
+                         st_eof st_inbox]. rewrite app_length. cbn [length].
+        repeat (split; [assumption|]). alia.
+    - (* SNop *)
+      injection H as <- <-. split; [reflexivity|]. unfold op_mon. cbn [wm_op].
+      eapply (MR_upd c m s); try exact R; try exact I1; try reflexivity; try apply R.
+  Qed.
+End OpRel.
